@@ -257,16 +257,23 @@ func (o *optimizer) etaReduction() {
 	}
 
 	// The reduced closure evaluates `fun` once, where the literal stood, instead of at every
-	// call, and uses it as a value. That is only the same thing for declared functions
-	// (optionally package-qualified / explicitly instantiated) and for method values of the
-	// iterator temporaries generated by the rewriter, which are never reassigned.
-	// Function variables, method values of user variables, builtins, conversions and
-	// uninstantiated generic functions are left alone.
+	// call, uses it as a value and is one call frame shallower. That is only the same thing
+	// for the thunks the rewriter generates itself: functions of package seq (optionally
+	// explicitly instantiated) and method values of the iterator temporaries, which are
+	// never reassigned.
+	// User functions are left alone - a variadic callee called without spreading
+	// (`func(xs ...any) string { return fmt.Sprint(xs) }`) or one that calls recover()
+	// (`defer func() any { return catch() }()`) is not the same function as its wrapper -
+	// and so are function variables, method values of user variables, builtins, conversions
+	// and uninstantiated generic functions.
 	var stableCallee func(ctx astmatcher.Ctx, fun ast.Expr, instantiated bool) bool
 	stableCallee = func(ctx astmatcher.Ctx, fun ast.Expr, instantiated bool) bool {
 		declared := func(id *ast.Ident) bool {
 			fn, ok := ctx.ObjectOf(id).(*types.Func)
 			if !ok {
+				return false
+			}
+			if fn.Pkg() == nil || fn.Pkg().Path() != pkgSeqPath {
 				return false
 			}
 			sig, _ := fn.Type().(*types.Signature)
